@@ -589,4 +589,4 @@ def run(index, rep, tier):
     # ---- R09.17 rules owned by other properties that this one rests on
     with rep.section("R09.17"):
         rep.rule("R09.17", "a matrix obtained by copying or exporting keeps its state alphabets (C12 R12.8), and NeXML attribute values - taxon and matrix labels - are escaped as XML (C02 R02.9)")
-        rep.floor("R09.17", "borrowed obligations", 3, borrow(index, rep, "C12", {"R12.8"}, "R09.17") + borrow(index, rep, "C02", {"R02.9"}, "R09.17"))
+        rep.floor("R09.17", "borrowed obligations", 2, borrow(index, rep, "C12", {"R12.8"}, "R09.17") + borrow(index, rep, "C02", {"R02.9"}, "R09.17"))
